@@ -49,7 +49,7 @@ CHECKS.update({
  "C16": dict(level="proof", engine="A", technique="Coq theorems (Props/C16.v): three-valued interval comparisons are exactly the for-all / for-none statements over member reals; Gallina model of mpi_lt/le/gt/ge/eq in correspondence; three-valued semantics decided exactly from endpoints",
    text="The three-valued comparison functions are transliterated; since an interval relation holds for all/no member pairs iff it holds for the corresponding endpoints, each case is decided exactly; `in`, == and != at API level on touching, nested, infinite and point intervals. Theorems in Props/C16.v prove for finite endpoints that True means the relation holds for every pair of members, False for none, None otherwise.",
    note=TB_A),
- "C39": dict(level="proof", engine="A", technique="Coq theorems (Props/C39.v): 2^(mag-1) <= |x| < 2^mag for regular x (so |x| <= 2^mag <= 4|x|), isint characterisation, ldexp exact; Gallina model of mag/nint_distance/isint/isnpint/isinf/isnan/isnormal/isfinite/ldexp/frexp in correspondence through the public functions; specs decided exactly",
+ "C39": dict(level="proof", engine="A", technique="Coq theorems (Props/C39.v): 2^(mag-1) <= |x| < 2^mag for regular x (so |x| <= 2^mag <= 4|x|), isint characterisation, ldexp exact, nint_distance returns the nearest integer (|x-n| <= 1/2, half-integers away from zero) and the exact binary magnitude of the distance; Gallina model of mag/nint_distance/isint/isnpint/isinf/isnan/isnormal/isfinite/ldexp/frexp in correspondence through the public functions; specs decided exactly",
    text="The helper functions are transliterated for mpf, mpc, int and mpq arguments and compared with the public functions; |x| <= 2^mag <= 4|x| (8|z| for complex), nearest-integer and distance exponent, and the classification tables are decided exactly for every generated value. Theorems in Props/C39.v hold for every regular mpf.",
    note=TB_A),
  "C40": dict(level="proof", engine="A", technique="Coq theorems (Props/C40.v, pure Z, axiom-free): of_hex(to_hex n) = n for all n >= 0; from_pickable(to_pickable x) = x for every tuple with non-negative mantissa (all canonical values incl. inf/nan); Gallina model of to_pickable/from_pickable (hex digit lists) in correspondence with real pickle round trips under every protocol; copy and matrix copy independence",
